@@ -106,3 +106,11 @@ func storedList(s *SugarDB, db int, key string) ([]string, bool) {
 	l, ok := e.Value.([]string)
 	return l, ok
 }
+
+// sharesBacking reports whether two slices end in the same backing array element.
+func sharesBacking(a, b []string) bool {
+	if cap(a) == 0 || cap(b) == 0 {
+		return false
+	}
+	return &a[:cap(a)][cap(a)-1] == &b[:cap(b)][cap(b)-1]
+}
